@@ -31,7 +31,10 @@ impl Axecutor {
                 (1, 0)
             }; (set: FLAGS_UNAFFECTED; clear: 0)]
         } else {
-            Ok(())
+            // SETcc always writes its destination: 0 when the condition is false
+            calculate_rm![u8f; self; i; |_: u8| {
+                (0, 0)
+            }; (set: FLAGS_UNAFFECTED; clear: 0)]
         }
     }
 }
